@@ -78,7 +78,9 @@ type Sim struct {
 	Fib   table.FibStrategy
 	// ingress is a real NDNLP link service (never started, no goroutines): harness packets enter
 	// through its frame decoder and dispatch code, exactly as frames from a transport do
-	ingress map[uint64]*face.NDNLPLinkService
+	ingress     map[uint64]*face.NDNLPLinkService
+	nIngest     uint64
+	NFragmented int // packets delivered to the ingress link service as several fragments
 }
 
 // Options configure a fresh forwarder.
@@ -192,7 +194,36 @@ func (s *Sim) IngestSpoof(wire []byte, inFace uint64, token []byte, nextHop *uin
 			break
 		}
 	}
-	face.VerifRecv(s.ingressFor(inFace), frame)
+	s.nIngest++
+	if s.nIngest%4 == 3 && len(wire) >= 12 {
+		// every fourth packet arrives as two or three link-protocol fragments (the peer's MTU is
+		// small); the header fields travel on every fragment, as this forwarder's own sender does
+		var hdr []byte
+		if len(token) > 0 {
+			hdr = append(hdr, tlv(0x62, token)...)
+		}
+		if claimedInFace != nil {
+			hdr = append(hdr, tlv(0x032C, nat(*claimedInFace))...)
+		}
+		if nextHop != nil {
+			hdr = append(hdr, tlv(0x0330, nat(*nextHop))...)
+		}
+		n := 2 + int(s.nIngest/4)%2
+		base := s.nIngest * 16
+		for i := 0; i < n; i++ {
+			a, z := len(wire)*i/n, len(wire)*(i+1)/n
+			var f []byte
+			f = append(f, tlv(0x51, []byte{0, 0, 0, 0, byte(base >> 24), byte(base >> 16), byte(base >> 8), byte(base) + byte(i)})...)
+			f = append(f, tlv(0x52, []byte{byte(i)})...)
+			f = append(f, tlv(0x53, []byte{byte(n)})...)
+			f = append(f, hdr...)
+			f = append(f, tlv(0x50, wire[a:z])...)
+			face.VerifRecv(s.ingressFor(inFace), tlv(0x64, f))
+		}
+		s.NFragmented++
+	} else {
+		face.VerifRecv(s.ingressFor(inFace), frame)
+	}
 	p, _, ok := fwfw.VerifDequeue(s.T)
 	if !ok {
 		return nil, ErrIngressDropped
